@@ -203,3 +203,56 @@ Definition marks (n : nat) (qs : list nat) : list bool := map (fun p => existsb 
 (* a tuple with position q toggled *)
 Definition flip_at (q : nat) (x : list bool) : list bool :=
   map (fun p => if Nat.eqb p q then negb (nth p x false) else nth p x false) (seq 0 (List.length x)).
+
+(* ------------------------------------------------------------------ Measurements.get_distribution *)
+(* counts[bitstring] / num_measurements per count string; the distribution's constructor turns every string key into
+   tuple(map(int, key)): character p of the string becomes element p of the key *)
+Definition get_distribution (shots : list (list bool)) : option (list (list bool * Q)) :=
+  match shots with
+  | [] => None                                       (* MeasurementOutcomeDistribution({}) raises RuntimeError *)
+  | _ => Some (map (fun kc => (bits_of_str (fst kc),
+                               Qdiv (inject_Z (snd kc)) (inject_Z (Z.of_nat (List.length shots))))) (get_counts shots))
+  end.
+
+(* ------------------------------------------------------------------ circuits of "classical" gates on wide registers
+   A gate whose matrix has exactly one non-zero entry per column, a power of i: it maps the basis state with bits b
+   (listed in the order of the gate's qubits, first qubit most significant) to the basis state with bits f(b), times
+   a phase.  X, CNOT, SWAP and their controlled versions, S, Z, CZ, and permutation gates are of this kind.  The state
+   of a circuit of such gates is a basis vector times a phase and can be followed on the tuple alone ([brun]),
+   without any 2^n x 2^n matrix; ViewsProofs.classical_run connects it to C01's code mirror [Circuit.run]. *)
+Require Import OQ.Circ.Lift OQ.Circ.LiftAlgebra OQ.Circ.Circuit.
+
+Section Classical.
+  Variable K : cring.
+  Local Open Scope cr_scope.
+
+  Record cgate : Type := mk_cgate { cg_qs : list nat; cg_f : list bool -> list bool; cg_ph : list bool -> K }.
+
+  (* the matrix of such a gate on k qubits: column c has the entry ph(bits of c) in row val(f(bits of c)) *)
+  Definition cmat (k : nat) (f : list bool -> list bool) (ph : list bool -> K) : Mat K :=
+    fun r c => let b := bits k c in if Nat.eqb r (val (f b)) then ph b else c0.
+  Definition cg_mat (g : cgate) : Mat K := cmat (List.length (cg_qs g)) (cg_f g) (cg_ph g).
+  Definition cg_op (g : cgate) : op K := OGate (mk_gateapp (cg_mat g) (cg_qs g)).
+
+  Definition cgate_ok (n : nat) (g : cgate) : Prop :=
+    cg_qs g <> [] /\ NoDup (cg_qs g) /\ Forall (fun q => (q < n)%nat) (cg_qs g) /\
+    forall b, List.length b = List.length (cg_qs g) -> List.length (cg_f g b) = List.length (cg_qs g).
+
+  (* the state as (tuple, amplitude): read the gate's qubits off the tuple in the gate's order, apply f, write back *)
+  Definition bstep (g : cgate) (st : list bool * K) : list bool * K :=
+    let b := select (cg_qs g) (fst st) in (merge (cg_qs g) (cg_f g b) (fst st), snd st * cg_ph g b).
+  Definition brun (gs : list cgate) (st : list bool * K) : list bool * K := fold_left (fun s g => bstep g s) gs st.
+
+  (* amp * e_j *)
+  Definition sbasis (amp : K) (j : nat) : Vec K := fun i => if Nat.eqb i j then amp else c0.
+
+  (* gates given by tables: column a goes to row perm[a] with the entry i^exps[a] *)
+  Definition ipow (e : nat) : K :=
+    match (e mod 4)%nat with 0%nat => c1 | 1%nat => ci | 2%nat => - c1 | _ => - ci end.
+  Definition table_gate (qs : list nat) (perm exps : list nat) : cgate :=
+    mk_cgate qs (fun b => bits (List.length qs) (nth (val b) perm 0%nat)) (fun b => ipow (nth (val b) exps 0%nat)).
+End Classical.
+
+Arguments mk_cgate {K}. Arguments cg_qs {K}. Arguments cg_f {K}. Arguments cg_ph {K}. Arguments cmat {K}.
+Arguments cg_mat {K}. Arguments cg_op {K}. Arguments cgate_ok {K}. Arguments bstep {K}. Arguments brun {K}.
+Arguments sbasis {K}. Arguments ipow {K}. Arguments table_gate {K}.
